@@ -401,12 +401,16 @@ func (env *Zlisp) StandardSetup() {
 	//	_, err = env.EvalString(colonOp)
 	//	panicOn(err)
 
+	// the count and the position are held in generated names: with plain n
+	// and i, a hash kept in a variable called n or i (or a body that reads
+	// its own n or i) met the loop's bookkeeping instead.
 	rangeMacro := `(defmac range [key value myhash & body]
-  ^(let [n (len ~myhash)]
-      (for [(def i 0) (< i n) (def i (+ i 1))]
+  (let [n (gensym "__range_n") i (gensym "__range_i")]
+  ^(let [~n (len ~myhash)]
+      (for [(def ~i 0) (< ~i ~n) (def ~i (+ ~i 1))]
         (newScope
-          (mdef (quote ~key) (quote ~value) (hpair ~myhash i))
-          ~@body))))`
+          (mdef (quote ~key) (quote ~value) (hpair ~myhash ~i))
+          ~@body)))))`
 	_, err = env.EvalString(rangeMacro)
 	panicOn(err)
 
